@@ -1,9 +1,11 @@
 (* C10 — module lifecycle and name registry are linearizable.
    Only statements, `exact <lemma>` and Print Assumptions live here. The model (coq/Rt/Registry.v) is a hand transcription of
    store.go / store_module_list.go / module_instance.go / runtime.go / builder.go at lock-and-atomic granularity, tied to the
-   code by the C10 correspondence run (sequential histories, timed concurrent histories, forced schedules). *)
+   code by the C10 correspondence run (sequential histories, timed concurrent histories, forced schedules).
+   Rt/RegistryAnon.v: the atomic steps of InstantiateModule and its windows, anonymous modules, the seeded registerModule variant,
+   single-schedule replay. Rt/RegistrySweep.v: relaxed specification with the sweep of Runtime.Close seen module by module. *)
 From Coq Require Import List Bool Arith ZArith.
-From Verif Require Import Rt.Registry Proofs.RegistryP.
+From Verif Require Import Rt.Registry Proofs.RegistryP Rt.RegistryAnon Proofs.RegistryAnonP.
 Import ListNotations.
 
 (* the checker decides linearizability: sound (as used by the tie) and complete (as used by the refutations) *)
@@ -100,3 +102,80 @@ Theorem C10_linearizable_partial_bounded_3ops : forall p sched c,
   has_panic (hist c) = true \/ linearizable spec1 (hist c).
 Proof. exact linearizable_atomic_bounded. Qed.
 Print Assumptions C10_linearizable_partial_bounded_3ops.
+
+(* ---------------------------------------------------------------- anonymous modules and the registration window
+   (Rt/RegistryAnon.v lists the atomic steps of InstantiateModule and the five windows between them; name 0 is the empty
+   module name). *)
+
+(* "Runtime.Close has completed", read off the history: some Runtime.Close has returned and none is in progress. Then the
+   closed flag is set AND the store has been swept. (A Close that loses the flag CAS returns before the winner's sweep —
+   open finding F33 — which is why "none in progress" is needed: Example loser_close_returns_early.) *)
+Theorem C10_runtime_close_returned_means_swept : forall a s0 prog sched c,
+  base_rt s0 -> run_sched a (init s0 prog) sched = Some c ->
+  (exists e, In e (hist c) /\ is_rtclose (e_op e) = true) -> no_rtclose_in_flight c ->
+  rt_closed (st c) = true /\ nmap (st c) = None.
+Proof. exact rtclose_completed. Qed.
+Print Assumptions C10_runtime_close_returned_means_swept.
+
+(* (a) for every schedule, once Runtime.Close has completed (flag set, store swept) at c1, whatever happens next: the store
+   stays closed and empty, and EVERY instantiate that has returned by c2 — named or anonymous (n = 0), binary or host,
+   wherever it was when the close ran (invoked before it, in any of the windows, or after it) — does not end with an open
+   module: if it returned ROk its module is closed (it was registered before the sweep and swept); otherwise it failed.
+   The only failure that is not an error value is the panic on the nil type-id map, which only the host-module path can
+   reach (open finding F32; a binary instantiate never panics); an instantiate invoked after the close fails with "closed". *)
+Theorem C10_after_runtime_close_anonymous : forall a s0 prog s1 c1 s2 c2,
+  base_reg s0 -> run_sched a (init s0 prog) s1 = Some c1 ->
+  rt_closed (st c1) = true -> nmap (st c1) = None ->
+  run_sched a c1 s2 = Some c2 ->
+  rt_closed (st c2) = true /\ nmap (st c2) = None /\ mlist (st c2) = [] /\
+  forall e h n i, In e (hist c2) -> e_op e = OInst h n i ->
+    (e_ret e = ROk -> is_closed (st c2) i = true) /\
+    (e_ret e = RPanic -> h = true) /\
+    (clk c1 <= e_inv e -> e_ret e = RErrClosed).
+Proof. exact after_close_instantiate. Qed.
+Print Assumptions C10_after_runtime_close_anonymous.
+
+(* ... the same with the hypothesis stated on the history *)
+Theorem C10_after_runtime_close_returned_anonymous : forall a s0 prog s1 c1 s2 c2,
+  base_reg s0 -> base_rt s0 -> run_sched a (init s0 prog) s1 = Some c1 ->
+  (exists e, In e (hist c1) /\ is_rtclose (e_op e) = true) -> no_rtclose_in_flight c1 ->
+  run_sched a c1 s2 = Some c2 ->
+  forall e h n i, In e (hist c2) -> e_op e = OInst h n i ->
+    (e_ret e = ROk -> is_closed (st c2) i = true) /\ (e_ret e = RPanic -> h = true) /\
+    (clk c1 <= e_inv e -> e_ret e = RErrClosed).
+Proof. exact after_close_returned_instantiate. Qed.
+Print Assumptions C10_after_runtime_close_returned_anonymous.
+
+(* (b) the step in which a Runtime.Close runs the locked loop of Store.CloseWithExitCode: every module linked in the list at
+   that moment is closed from then on, and so is every module that registerModule ever accepted — anonymous ones (which
+   claim no name but are linked and logged exactly like named ones) included; the list is empty and the store is marked
+   closed (nil map) from then on. (Resources released / notification fired exactly once: C10_close_once.) *)
+Theorem C10_close_sweeps_every_registered_module : forall a s0 prog s1 c1 k c1' s2 c2,
+  run_sched a (init s0 prog) s1 = Some c1 -> sweeping c1 k -> tstep a c1 k = Some c1' -> run_sched a c1' s2 = Some c2 ->
+  (forall i, In i (mlist (st c1)) -> is_closed (st c2) i = true) /\
+  (base_reg s0 -> forall i, In i (registered (st c1)) -> is_closed (st c2) i = true) /\
+  mlist (st c2) = [] /\ nmap (st c2) = None.
+Proof. exact close_sweeps. Qed.
+Print Assumptions C10_close_sweeps_every_registered_module.
+
+(* (c) seed C10c — registerModule with the closed-store test only on the named path ([RegSeeded]): the schedule
+   [anon_sched_probe] = thread 0 (anonymous InstantiateModule, then IsClosed) runs invocation, failIfClosed, Store.instantiate;
+   thread 1 runs the whole Runtime.Close and returns; thread 0 runs registerModule, attach, returns ROk, reads the closed
+   word. The runtime is closed (flag, nil map, engine), the Close returned before the instantiate did, and the instantiate
+   returned an OPEN module that sits in the list of the closed store with its resources never released; no atomic registry
+   explains the history. *)
+Theorem C10_anonymous_skips_closed_check_refuted :
+  exists c, run_sched_v RegSeeded true (init impl0 anon_prog_probe) anon_sched_probe = Some c /\ finished c = true /\
+            rt_closed (st c) = true /\ nmap (st c) = None /\ eng_closed (st c) = true /\
+            (exists e, In e (hist c) /\ e_op e = ORtClose 0 /\ e_ret e = ROk /\
+                       exists e', In e' (hist c) /\ e_op e' = OInst false 0 2 /\ e_ret e' = ROk /\ e_res e < e_res e') /\
+            map e_ret (filter (fun e => e_thr e =? 0) (rev (hist c))) = [ROk; RExit None] /\
+            is_closed (st c) 2 = false /\ mlist (st c) = [2] /\ count 2 (res_log (st c)) = 0 /\
+            ~ linearizable spec0 (hist c).
+Proof. exact anon_seeded_witness. Qed.
+Print Assumptions C10_anonymous_skips_closed_check_refuted.
+
+(* the parametrised step with the real registerModule is the step model of Registry.v, so (a) and (b) speak about it *)
+Theorem C10_real_variant_is_registry_model : forall a sched c, run_sched_v RegReal a c sched = run_sched a c sched.
+Proof. exact run_sched_v_real. Qed.
+Print Assumptions C10_real_variant_is_registry_model.
